@@ -77,8 +77,14 @@ func New(id, tier string) *Ctx {
 		extra: map[string]interface{}{}, counters: map[string]int64{},
 		knownHits: map[string]int{}, violKeys: map[string]int{},
 		known: map[string]Finding{}, printed: map[string]bool{}}
-	b, err := os.ReadFile(filepath.Join(Root(), "known_findings.json"))
-	if err == nil {
+	files := []string{filepath.Join(Root(), "known_findings.json")}
+	more, _ := filepath.Glob(filepath.Join(Root(), "known_findings.d", "*.json"))
+	files = append(files, more...)
+	for _, fn := range files {
+		b, err := os.ReadFile(fn)
+		if err != nil {
+			continue
+		}
 		var kf knownFile
 		if json.Unmarshal(b, &kf) == nil {
 			for _, f := range kf.Findings {
